@@ -1,6 +1,7 @@
 package engine
 
 import (
+	"bytes"
 	"github.com/cockroachdb/pebble"
 	"github.com/youzan/ZanRedisDB/common"
 )
@@ -58,7 +59,12 @@ func (it *pebbleIterator) Seek(key []byte) {
 	it.Iterator.SeekGE(key)
 }
 
+// seek to the last key that less than or equal to the target key
 func (it *pebbleIterator) SeekForPrev(key []byte) {
+	// pebble only has the strict SeekLT, so the key equal to the target need be checked first
+	if it.Iterator.SeekGE(key) && bytes.Equal(it.Iterator.Key(), key) {
+		return
+	}
 	it.Iterator.SeekLT(key)
 }
 
